@@ -1,6 +1,6 @@
 /- C10 part I: integer-level correctness of the RNSTool routines (division by the last prime with rounding, its BGV variant,
    and the BEHZ steps).  Part 1 gives precise statements to prove.  Part 2 asks you to FORMULATE and prove the integer
-   lemmas behind the BEHZ routines.  Replace every `sorry`. -/
+   lemmas behind the BEHZ routines.  Part 3 lifts every routine to its `…Coeff` value. -/
 import Heathcliff.Model.RNS
 import Heathcliff.Proofs.C08A
 import Heathcliff.Proofs.NTTDefs
@@ -743,5 +743,460 @@ theorem scaleAndRound_scalar_bound {t gamma negInvQt negInvQg invG c0 c1 Q k : N
   have e1 : 2 * (t : Int) * xt + Q = (2 * e + Q) + (2 * Q) * w := by linear_combination 2 * hphase
   rw [e1, Int.add_mul_ediv_left _ _ (by omega : (2 * (Q : Int)) ≠ 0),
     Int.ediv_eq_zero_of_lt (by omega) (by omega), zero_add]
+
+
+/-! ## Part 3 (bonus): LIFTS of the remaining routines to their `…Coeff` values.
+   Each theorem shows the model function succeeds and returns, for every output component i and coefficient j, exactly
+   the `…Coeff` value (this also certifies that the `…Coeff` definitions are what the model computes).  The fast base
+   conversions are taken as given results (`hconv`/`hdest`/`htemp`), their correctness belongs to `BaseConverter`. -/
+
+theorem getD_rangeMap' {β : Type} (n : Nat) (F : Nat → β) (d : β) {j : Nat} (hj : j < n) :
+    ((List.range n).map F).toArray.getD j d = F j := by
+  simp [Array.getD, hj]
+
+theorem smMrq_step_ok {b mt : Modulus} {pq invMt : MulOperand} {pqv half rm x : Nat}
+    (hb : b.WF) (hmb : mt.value ≤ b.value) (hpq : MulOperand.new pqv b = .ok pq) (hpqv : pqv < b.value)
+    (hinv : WFOp b invMt) (hrm : rm < mt.value) (hx : x < 2^64) :
+    (do
+      let temp ← if rm ≥ half then do let d ← ckSub b.value mt.value; ckAdd rm d else pure rm
+      let u ← mulOperandAddMod temp pq x b
+      mulOperandMod u invMt b) =
+    .ok ((((if rm ≥ half then rm + (b.value - mt.value) else rm) * pqv + x) % b.value * invMt.operand) % b.value) := by
+  have hb2 := hb.two_le
+  have hb61 := hb.lt
+  have hb0 : 0 < b.value := by omega
+  have key : ∀ temp : Nat, temp < 2^64 →
+      (do let u ← mulOperandAddMod temp pq x b; mulOperandMod u invMt b) =
+        .ok (((temp * pqv + x) % b.value * invMt.operand) % b.value) := by
+    intro temp ht
+    have hlt : (temp * pqv + x) % b.value < b.value := Nat.mod_lt _ hb0
+    rw [mulOperandAddMod_exact hb ht hpqv hx hpq, ok_bind,
+      mulOperandMod_exact hb (by omega) hinv.1 (wfop_new hb hinv)]
+  by_cases hc : rm ≥ half
+  · rw [if_pos hc, if_pos hc]
+    unfold ckSub ckAdd
+    rw [if_pos hmb, ok_bind, if_pos (by rw [B64_eq]; omega), ok_bind]
+    exact key _ (by omega)
+  · rw [if_neg hc, if_neg hc]
+    exact key _ (by omega)
+
+theorem smMrq_spec {r : RNSTool} {p : RnsPoly}
+    (hmt : r.mTilde.WF) (hneg : WFOp r.mTilde r.negInvProdQModMt)
+    (hb : ∀ i, i < r.baseBsk.size → (r.baseBsk.q i).WF ∧ r.mTilde.value ≤ (r.baseBsk.q i).value ∧
+      r.prodQModBsk.getD i 0 < (r.baseBsk.q i).value ∧ WFOp (r.baseBsk.q i) (r.invMtModBsk.getD i default))
+    (hn : (p.getD r.baseBsk.size #[]).size = r.n)
+    (hc : ∀ i j, i ≤ r.baseBsk.size → j < r.n → (p.getD i #[]).getD j 0 < 2^64) :
+    ∃ out, r.smMrq p = .ok out ∧ ∀ i j, i < r.baseBsk.size → j < r.n →
+      (out.getD i #[]).getD j 0 =
+        smMrqCoeff r.mTilde.value (r.baseBsk.q i).value (r.prodQModBsk.getD i 0)
+          (r.invMtModBsk.getD i default).operand r.negInvProdQModMt.operand
+          ((p.getD i #[]).getD j 0) ((p.getD r.baseBsk.size #[]).getD j 0) := by
+  have hm2 := hmt.two_le
+  have hm0 : 0 < r.mTilde.value := by omega
+  have hmem : ∀ x ∈ p.getD r.baseBsk.size #[], x < 2^64 :=
+    mem_lt_of_getD (fun j hj => hc _ j (le_refl _) (by rw [← hn]; exact hj))
+  have h1 : mapM' (p.getD r.baseBsk.size #[]) (fun x => mulOperandMod x r.negInvProdQModMt r.mTilde)
+      = .ok ((p.getD r.baseBsk.size #[]).map (fun x => (x * r.negInvProdQModMt.operand) % r.mTilde.value)) :=
+    mapM'_ok _ (fun x hx => mulOperandMod_exact hmt (hmem x hx) hneg.1 (wfop_new hmt hneg))
+  unfold RNSTool.smMrq
+  dsimp only
+  rw [h1, ok_bind, listMapM_ok (G := fun i =>
+    ((List.range ((p.getD r.baseBsk.size #[]).map
+        (fun x => (x * r.negInvProdQModMt.operand) % r.mTilde.value)).size).map
+      (fun k => (fun rm x => (((if rm ≥ r.mTilde.value / 2 then rm + ((r.baseBsk.q i).value - r.mTilde.value) else rm)
+          * r.prodQModBsk.getD i 0 + x) % (r.baseBsk.q i).value * (r.invMtModBsk.getD i default).operand)
+            % (r.baseBsk.q i).value)
+        (((p.getD r.baseBsk.size #[]).map
+          (fun x => (x * r.negInvProdQModMt.operand) % r.mTilde.value)).getD k 0)
+        ((p.getD i #[]).getD k 0))).toArray), ok_bind]
+  · refine ⟨_, rfl, ?_⟩
+    intro i j hi hj
+    rw [getD_rangeMap' _ _ _ hi, getD_rangeMap _ _ (by rw [Array.size_map, hn]; exact hj),
+      getD_map_lt _ _ (by rw [hn]; exact hj)]
+    rfl
+  · intro i hi
+    rw [List.mem_range] at hi
+    obtain ⟨hbi, hmb, hpqv, hinv⟩ := hb i hi
+    obtain ⟨pq, hpq, -, -⟩ := mulOperand_new hbi hpqv
+    rw [hpq, ok_bind, zipM'_ok (g := fun rm x =>
+      (((if rm ≥ r.mTilde.value / 2 then rm + ((r.baseBsk.q i).value - r.mTilde.value) else rm)
+          * r.prodQModBsk.getD i 0 + x) % (r.baseBsk.q i).value * (r.invMtModBsk.getD i default).operand)
+            % (r.baseBsk.q i).value)]
+    intro k hk
+    rw [Array.size_map, hn] at hk
+    refine smMrq_step_ok hbi hmb hpq hpqv hinv ?_ (hc i k (by omega) hk)
+    rw [getD_map_lt _ _ (by rw [hn]; exact hk)]
+    exact Nat.mod_lt _ hm0
+
+theorem fastFloor_step_ok {b : Modulus} {invQ : MulOperand} {x d : Nat}
+    (hb : b.WF) (hinv : WFOp b invQ) (hd : d ≤ b.value) (hx : x + b.value < 2^64) :
+    (do
+      let nd ← ckSub b.value d
+      let s ← ckAdd x nd
+      mulOperandMod s invQ b) = .ok (((x + (b.value - d)) * invQ.operand) % b.value) := by
+  unfold ckSub ckAdd
+  rw [if_pos hd, ok_bind, if_pos (by rw [B64_eq]; omega), ok_bind]
+  exact mulOperandMod_exact hb (by omega) hinv.1 (wfop_new hb hinv)
+
+theorem fastFloor_spec {r : RNSTool} {p conv : RnsPoly}
+    (hconv : r.qToBsk.fastConvertArray (p.extract 0 r.baseQ.size) r.n = .ok conv)
+    (hb : ∀ i, i < r.baseBsk.size → (r.baseBsk.q i).WF ∧ WFOp (r.baseBsk.q i) (r.invProdQModBsk.getD i default))
+    (hn : ∀ i, i < r.baseBsk.size → (p.getD (r.baseQ.size + i) #[]).size = r.n)
+    (hx : ∀ i j, i < r.baseBsk.size → j < r.n →
+      (p.getD (r.baseQ.size + i) #[]).getD j 0 + (r.baseBsk.q i).value < 2^64)
+    (hd : ∀ i j, i < r.baseBsk.size → j < r.n → (conv.getD i #[]).getD j 0 ≤ (r.baseBsk.q i).value) :
+    ∃ out, r.fastFloor p = .ok out ∧ ∀ i j, i < r.baseBsk.size → j < r.n →
+      (out.getD i #[]).getD j 0 =
+        fastFloorCoeff (r.baseBsk.q i).value (r.invProdQModBsk.getD i default).operand
+          ((p.getD (r.baseQ.size + i) #[]).getD j 0) ((conv.getD i #[]).getD j 0) := by
+  unfold RNSTool.fastFloor
+  dsimp only
+  rw [hconv, ok_bind, listMapM_ok (G := fun i =>
+    ((List.range (p.getD (r.baseQ.size + i) #[]).size).map
+      (fun k => (fun x d => ((x + ((r.baseBsk.q i).value - d)) * (r.invProdQModBsk.getD i default).operand)
+            % (r.baseBsk.q i).value)
+        ((p.getD (r.baseQ.size + i) #[]).getD k 0) ((conv.getD i #[]).getD k 0))).toArray), ok_bind]
+  · refine ⟨_, rfl, ?_⟩
+    intro i j hi hj
+    rw [getD_rangeMap' _ _ _ hi, getD_rangeMap _ _ (by rw [hn i hi]; exact hj)]
+    rfl
+  · intro i hi
+    rw [List.mem_range] at hi
+    obtain ⟨hbi, hinv⟩ := hb i hi
+    rw [zipM'_ok (g := fun x d => ((x + ((r.baseBsk.q i).value - d)) * (r.invProdQModBsk.getD i default).operand)
+            % (r.baseBsk.q i).value)]
+    intro k hk
+    rw [hn i hi] at hk
+    exact fastFloor_step_ok hbi hinv (hd i k hi hk) (hx i k hi hk)
+
+theorem fastbconvSk_alpha_ok {m : Modulus} {invB : MulOperand} {tv x : Nat}
+    (hm : m.WF) (hinv : WFOp m invB) (hx : x ≤ m.value) (htv : tv + m.value < 2^64) :
+    (do
+      let d ← ckSub m.value x
+      let s ← ckAdd tv d
+      mulOperandMod s invB m) = .ok (((tv + (m.value - x)) * invB.operand) % m.value) := by
+  unfold ckSub ckAdd
+  rw [if_pos hx, ok_bind, if_pos (by rw [B64_eq]; omega), ok_bind]
+  exact mulOperandMod_exact hm (by omega) hinv.1 (wfop_new hm hinv)
+
+theorem fastbconvSk_step_ok {b msk : Modulus} {pb npb : MulOperand} {pbv half a d : Nat}
+    (hb : b.WF) (hmsk : msk.WF) (hpb : MulOperand.new pbv b = .ok pb)
+    (hnpb : MulOperand.new (b.value - pbv) b = .ok npb) (hpbv : pbv < b.value) (hpbv0 : 0 < pbv)
+    (ha : a < msk.value) (hd : d < 2^64) :
+    (if a > half then do
+        let na ← negateMod a msk
+        mulOperandAddMod na pb d b
+      else mulOperandAddMod a npb d b) =
+    .ok (if a > half then (((msk.value - a) % msk.value) * pbv + d) % b.value
+         else (a * (b.value - pbv) + d) % b.value) := by
+  have hm61 := hmsk.lt
+  have hm2 := hmsk.two_le
+  by_cases hc : a > half
+  · rw [if_pos hc, if_pos hc, negateMod_exact hmsk ha.le, ok_bind]
+    have : (msk.value - a) % msk.value < msk.value := Nat.mod_lt _ (by omega)
+    exact mulOperandAddMod_exact hb (by omega) hpbv hd hpb
+  · rw [if_neg hc, if_neg hc]
+    exact mulOperandAddMod_exact hb (by omega) (by omega) hd hnpb
+
+/-- the α_sk row of `fastbconvSk` as an explicit array -/
+def fastbconvSkAlpha (r : RNSTool) (p temp : RnsPoly) : Array Nat :=
+  ((List.range (temp.getD 0 #[]).size).map
+    (fun k => (fun tv x => ((tv + (r.mSk.value - x)) * r.invProdBModMsk.operand) % r.mSk.value)
+      ((temp.getD 0 #[]).getD k 0) ((p.getD r.baseB.size #[]).getD k 0))).toArray
+
+theorem fastbconvSk_spec {r : RNSTool} {p dest temp : RnsPoly}
+    (hdest : r.bToQ.fastConvertArray (p.extract 0 r.baseB.size) r.n = .ok dest)
+    (htemp : r.bToMsk.fastConvertArray (p.extract 0 r.baseB.size) r.n = .ok temp)
+    (hmsk : r.mSk.WF) (hinvB : WFOp r.mSk r.invProdBModMsk)
+    (hq : ∀ i, i < r.baseQ.size → (r.baseQ.q i).WF ∧ 0 < r.prodBModQ.getD i 0 ∧
+      r.prodBModQ.getD i 0 < (r.baseQ.q i).value)
+    (hn : (temp.getD 0 #[]).size = r.n)
+    (htv : ∀ j, j < r.n → (temp.getD 0 #[]).getD j 0 + r.mSk.value < 2^64)
+    (hx : ∀ j, j < r.n → (p.getD r.baseB.size #[]).getD j 0 ≤ r.mSk.value)
+    (hd : ∀ i j, i < r.baseQ.size → j < r.n → (dest.getD i #[]).getD j 0 < 2^64) :
+    ∃ out, r.fastbconvSk p = .ok out ∧ ∀ i j, i < r.baseQ.size → j < r.n →
+      (out.getD i #[]).getD j 0 =
+        fastbconvSkCoeff r.mSk.value (r.baseQ.q i).value r.invProdBModMsk.operand (r.prodBModQ.getD i 0)
+          ((temp.getD 0 #[]).getD j 0) ((p.getD r.baseB.size #[]).getD j 0) ((dest.getD i #[]).getD j 0) := by
+  have hm2 := hmsk.two_le
+  have halpha : zipM' (temp.getD 0 #[]) (p.getD r.baseB.size #[]) (fun tv x => do
+        let d ← ckSub r.mSk.value x
+        let s ← ckAdd tv d
+        mulOperandMod s r.invProdBModMsk r.mSk) = .ok (fastbconvSkAlpha r p temp) := by
+    rw [zipM'_ok (g := fun tv x => ((tv + (r.mSk.value - x)) * r.invProdBModMsk.operand) % r.mSk.value)]
+    · rfl
+    · intro k hk
+      rw [hn] at hk
+      exact fastbconvSk_alpha_ok hmsk hinvB (hx k hk) (htv k hk)
+  have hasz : (fastbconvSkAlpha r p temp).size = r.n := by
+    unfold fastbconvSkAlpha
+    rw [List.size_toArray, List.length_map, List.length_range, hn]
+  have haget : ∀ k, k < r.n → (fastbconvSkAlpha r p temp).getD k 0 =
+      (((temp.getD 0 #[]).getD k 0 + (r.mSk.value - (p.getD r.baseB.size #[]).getD k 0))
+        * r.invProdBModMsk.operand) % r.mSk.value := by
+    intro k hk
+    unfold fastbconvSkAlpha
+    rw [getD_rangeMap _ _ (by rw [hn]; exact hk)]
+  unfold RNSTool.fastbconvSk
+  dsimp only
+  rw [hdest, ok_bind, htemp, ok_bind, halpha, ok_bind, listMapM_ok (G := fun i =>
+    ((List.range (fastbconvSkAlpha r p temp).size).map
+      (fun k => (fun a d => if a > r.mSk.value / 2
+          then (((r.mSk.value - a) % r.mSk.value) * r.prodBModQ.getD i 0 + d) % (r.baseQ.q i).value
+          else (a * ((r.baseQ.q i).value - r.prodBModQ.getD i 0) + d) % (r.baseQ.q i).value)
+        ((fastbconvSkAlpha r p temp).getD k 0) ((dest.getD i #[]).getD k 0))).toArray), ok_bind]
+  · refine ⟨_, rfl, ?_⟩
+    intro i j hi hj
+    rw [getD_rangeMap' _ _ _ hi, getD_rangeMap _ _ (by rw [hasz]; exact hj), haget j hj]
+    rfl
+  · intro i hi
+    rw [List.mem_range] at hi
+    obtain ⟨hbi, hpb0, hpblt⟩ := hq i hi
+    obtain ⟨pb, hpb, -, -⟩ := mulOperand_new hbi hpblt
+    obtain ⟨npb, hnpb, -, -⟩ := mulOperand_new hbi
+      (show (r.baseQ.q i).value - r.prodBModQ.getD i 0 < (r.baseQ.q i).value by omega)
+    have hck : ckSub (r.baseQ.q i).value (r.prodBModQ.getD i 0)
+        = .ok ((r.baseQ.q i).value - r.prodBModQ.getD i 0) := by
+      unfold ckSub; rw [if_pos hpblt.le]
+    rw [hpb, ok_bind, hck, ok_bind, hnpb, ok_bind, zipM'_ok (g := fun a d => if a > r.mSk.value / 2
+          then (((r.mSk.value - a) % r.mSk.value) * r.prodBModQ.getD i 0 + d) % (r.baseQ.q i).value
+          else (a * ((r.baseQ.q i).value - r.prodBModQ.getD i 0) + d) % (r.baseQ.q i).value)]
+    intro k hk
+    rw [hasz] at hk
+    refine fastbconvSk_step_ok hbi hmsk hpb hnpb hpblt hpb0 ?_ (hd i k hi hk)
+    rw [haget k hk]
+    exact Nat.mod_lt _ (by omega)
+
+theorem scaleAndRound_step_ok {t gamma : Modulus} {ig : MulOperand} {a g gdiv2 : Nat}
+    (ht : t.WF) (hig : WFOp t ig) (ha : a < t.value) (hg : g ≤ gamma.value) (hgw : gamma.value < 2^64) :
+    (do
+      let d ← if g > gdiv2 then do
+                let ng ← ckSub gamma.value g
+                let rg ← barrett64 ng t
+                addMod a rg t
+              else do
+                let rg ← barrett64 g t
+                subMod a rg t
+      if d ≠ 0 then mulOperandMod d ig t else pure d) =
+    .ok (if (if g > gdiv2 then (a + (gamma.value - g) % t.value) % t.value else (a + t.value - g % t.value) % t.value) ≠ 0
+         then ((if g > gdiv2 then (a + (gamma.value - g) % t.value) % t.value
+                else (a + t.value - g % t.value) % t.value) * ig.operand) % t.value
+         else (if g > gdiv2 then (a + (gamma.value - g) % t.value) % t.value else (a + t.value - g % t.value) % t.value)) := by
+  have ht2 := ht.two_le
+  have ht61 := ht.lt
+  have ht0 : 0 < t.value := by omega
+  have key : ∀ d : Nat, d < t.value →
+      (if d ≠ 0 then mulOperandMod d ig t else pure d) = .ok (if d ≠ 0 then (d * ig.operand) % t.value else d) := by
+    intro d hd
+    by_cases h0 : d ≠ 0
+    · rw [if_pos h0, if_pos h0]
+      exact mulOperandMod_exact ht (by omega) hig.1 (wfop_new ht hig)
+    · rw [if_neg h0, if_neg h0]; rfl
+  by_cases hc : g > gdiv2
+  · simp only [if_pos hc]
+    unfold ckSub
+    rw [if_pos hg, ok_bind, barrett64_exact ht (by omega), ok_bind,
+      addMod_exact ht ha (Nat.mod_lt _ ht0), ok_bind]
+    exact key _ (Nat.mod_lt _ ht0)
+  · simp only [if_neg hc]
+    rw [barrett64_exact ht (by omega), ok_bind, subMod_exact ht ha (Nat.mod_lt _ ht0), ok_bind]
+    exact key _ (Nat.mod_lt _ ht0)
+
+theorem decryptScaleAndRound_spec {r : RNSTool} {p tg : RnsPoly} {btg : RNSBase} {conv : BaseConverter}
+    {ig : MulOperand}
+    (h1 : r.baseTGamma = some btg) (h2 : r.qToTGamma = some conv) (h3 : r.invGammaModT = some ig)
+    (hconv : conv.fastConvertArray ((List.range r.baseQ.size).map (fun i =>
+        (p.getD i #[]).map (fun x => (x * (r.prodTGammaModQ.getD i default).operand) % (r.baseQ.q i).value))).toArray r.n
+        = .ok tg)
+    (hq : ∀ i, i < r.baseQ.size → (r.baseQ.q i).WF ∧ WFOp (r.baseQ.q i) (r.prodTGammaModQ.getD i default))
+    (hp : ∀ i, i < r.baseQ.size → ∀ x ∈ p.getD i #[], x < 2^64)
+    (ht : r.t.WF) (hgam : r.gamma.WF) (hig : WFOp r.t ig)
+    (hn0 : WFOp r.t (r.negInvQModTGamma.getD 0 default)) (hn1 : WFOp r.gamma (r.negInvQModTGamma.getD 1 default))
+    (hs0 : (tg.getD 0 #[]).size = r.n) (hs1 : (tg.getD 1 #[]).size = r.n)
+    (hw0 : ∀ x ∈ tg.getD 0 #[], x < 2^64) (hw1 : ∀ x ∈ tg.getD 1 #[], x < 2^64) :
+    ∃ out, r.decryptScaleAndRound p = .ok out ∧ ∀ j, j < r.n →
+      out.getD j 0 =
+        scaleAndRoundCoeff r.t.value r.gamma.value (r.negInvQModTGamma.getD 0 default).operand
+          (r.negInvQModTGamma.getD 1 default).operand ig.operand
+          ((tg.getD 0 #[]).getD j 0) ((tg.getD 1 #[]).getD j 0) := by
+  have ht0 : 0 < r.t.value := by have := ht.two_le; omega
+  have hg0 : 0 < r.gamma.value := by have := hgam.two_le; omega
+  have hg61 := hgam.lt
+  have htemp : (List.range r.baseQ.size).mapM (fun i =>
+      mapM' (p.getD i #[]) (fun x => mulOperandMod x (r.prodTGammaModQ.getD i default) (r.baseQ.q i)))
+      = .ok ((List.range r.baseQ.size).map (fun i =>
+        (p.getD i #[]).map (fun x => (x * (r.prodTGammaModQ.getD i default).operand) % (r.baseQ.q i).value))) := by
+    apply listMapM_ok
+    intro i hi
+    rw [List.mem_range] at hi
+    obtain ⟨hqi, hop⟩ := hq i hi
+    exact mapM'_ok _ (fun x hx => mulOperandMod_exact hqi (hp i hi x hx) hop.1 (wfop_new hqi hop))
+  have htp : mapM' (tg.getD 0 #[]) (fun x => mulOperandMod x (r.negInvQModTGamma.getD 0 default) r.t)
+      = .ok ((tg.getD 0 #[]).map (fun x => (x * (r.negInvQModTGamma.getD 0 default).operand) % r.t.value)) :=
+    mapM'_ok _ (fun x hx => mulOperandMod_exact ht (hw0 x hx) hn0.1 (wfop_new ht hn0))
+  have hgp : mapM' (tg.getD 1 #[]) (fun x => mulOperandMod x (r.negInvQModTGamma.getD 1 default) r.gamma)
+      = .ok ((tg.getD 1 #[]).map (fun x => (x * (r.negInvQModTGamma.getD 1 default).operand) % r.gamma.value)) :=
+    mapM'_ok _ (fun x hx => mulOperandMod_exact hgam (hw1 x hx) hn1.1 (wfop_new hgam hn1))
+  unfold RNSTool.decryptScaleAndRound
+  simp only [h1, h2, h3]
+  rw [htemp, ok_bind, hconv, ok_bind, htp, ok_bind, hgp, ok_bind]
+  rw [zipM'_ok (g := fun a g =>
+      if (if g > r.gamma.value / 2 then (a + (r.gamma.value - g) % r.t.value) % r.t.value
+          else (a + r.t.value - g % r.t.value) % r.t.value) ≠ 0
+      then ((if g > r.gamma.value / 2 then (a + (r.gamma.value - g) % r.t.value) % r.t.value
+             else (a + r.t.value - g % r.t.value) % r.t.value) * ig.operand) % r.t.value
+      else (if g > r.gamma.value / 2 then (a + (r.gamma.value - g) % r.t.value) % r.t.value
+            else (a + r.t.value - g % r.t.value) % r.t.value))]
+  · refine ⟨_, rfl, ?_⟩
+    intro j hj
+    rw [getD_rangeMap _ _ (by rw [Array.size_map, hs0]; exact hj),
+      getD_map_lt _ _ (by rw [hs1]; exact hj), getD_map_lt _ _ (by rw [hs0]; exact hj)]
+    rfl
+  · intro k hk
+    refine scaleAndRound_step_ok ht hig ?_ ?_ (by omega)
+    · apply getD_lt_of_forall _ ht0
+      intro x hx
+      obtain ⟨y, -, rfl⟩ := Array.mem_map.mp hx
+      exact Nat.mod_lt _ ht0
+    · apply Nat.le_of_lt
+      apply getD_lt_of_forall _ hg0
+      intro x hx
+      obtain ⟨y, -, rfl⟩ := Array.mem_map.mp hx
+      exact Nat.mod_lt _ hg0
+
+theorem foldlM_push_ok' {α : Type} (l : List α) (step : Array Nat → α → R (Array Nat)) (G : α → Nat)
+    (h : ∀ acc, ∀ x ∈ l, step acc x = .ok (acc.push (G x))) (acc : Array Nat) :
+    l.foldlM step acc = .ok (acc ++ (l.map G).toArray) := by
+  induction l generalizing acc with
+  | nil => simp [pure, Except.pure]
+  | cons a l ih =>
+    rw [List.foldlM_cons, h acc a (by simp)]
+    refine Eq.trans (ih (fun acc x hx => h acc x (by simp [hx])) (acc.push (G a))) ?_
+    simp
+
+theorem ite_bind_join {α β : Type} (c : Prop) [Decidable c] (A B : R α) (K : α → R β) :
+    (if c then A >>= K else B >>= K) = (if c then A else B) >>= K := by
+  split <;> rfl
+
+theorem modTDiv_step_ok {b : Modulus} {acc : Array Nat} {cl0 dl x : Nat} (hb : b.WF)
+    (hcl : cl0 < 2^64) (hdl : dl < b.value) (hx : x + 2 * b.value < 2^64) :
+    (do
+      let cl ← barrett64 cl0 b
+      let a ← ckSub (b.value * 2) cl
+      let a2 ← ckSub a dl
+      let v ← ckAdd x a2
+      pure (acc.push v)) = .ok (acc.push (x + (b.value * 2 - cl0 % b.value - dl))) := by
+  have hb2 := hb.two_le
+  have hlt : cl0 % b.value < b.value := Nat.mod_lt _ (by omega)
+  rw [barrett64_exact hb hcl, ok_bind]
+  unfold ckSub ckAdd
+  rw [if_pos (by omega), ok_bind, if_pos (by omega), ok_bind, if_pos (by rw [B64_eq]; omega), ok_bind]
+  rfl
+
+theorem modTDiv_value {qi inv xi c δ δ' : Nat} (hc : c < qi) (hδ : δ < qi) (hδ' : δ = δ') :
+    ((xi + (qi * 2 - c - δ)) * inv) % qi = (((xi + 2 * qi - c - δ') % qi) * inv) % qi := by
+  subst hδ'
+  rw [Nat.mod_mul_mod]
+  congr 2
+  omega
+
+theorem modTAndDivideQLast_spec {r : RNSTool} {p : RnsPoly}
+    (hq : ∀ i, i < r.baseQ.size → (r.baseQ.q i).WF) (hs : 2 ≤ r.baseQ.size) (ht : r.t.WF)
+    (hinvt : r.invQLastModT < 2^64)
+    (hinv : ∀ i, i < r.baseQ.size - 1 → WFOp (r.baseQ.q i) (r.invQLastModQ.getD i default))
+    (hn : (p.getD (r.baseQ.size - 1) #[]).size = r.n)
+    (hcl : ∀ j, j < r.n → (p.getD (r.baseQ.size - 1) #[]).getD j 0 < 2^64)
+    (hc : ∀ i j, i < r.baseQ.size - 1 → j < r.n →
+      (p.getD i #[]).getD j 0 + 2 * (r.baseQ.q i).value < 2^64) :
+    ∃ out, r.modTAndDivideQLast p = .ok out ∧ ∀ i j, i < r.baseQ.size - 1 → j < r.n →
+      (out.getD i #[]).getD j 0 =
+        modTDivLastCoeff r.t.value (r.baseQ.q (r.baseQ.size - 1)).value (r.baseQ.q i).value
+          (r.invQLastModQ.getD i default).operand r.invQLastModT
+          ((p.getD (r.baseQ.size - 1) #[]).getD j 0) ((p.getD i #[]).getD j 0) := by
+  have ht2 := ht.two_le
+  have ht61 := ht.lt
+  have ht0 : 0 < r.t.value := by omega
+  have hl61 := (hq (r.baseQ.size - 1) (by omega)).lt
+  have hmemL : ∀ x ∈ p.getD (r.baseQ.size - 1) #[], x < 2^64 :=
+    mem_lt_of_getD (fun j hj => hcl j (by rw [← hn]; exact hj))
+  have h0 : mapM' (p.getD (r.baseQ.size - 1) #[]) (fun x => do let y ← barrett64 x r.t; negateMod y r.t)
+      = .ok ((p.getD (r.baseQ.size - 1) #[]).map (fun x => (r.t.value - x % r.t.value) % r.t.value)) := by
+    apply mapM'_ok
+    intro x hx
+    rw [barrett64_exact ht (hmemL x hx), ok_bind]
+    exact negateMod_exact ht (Nat.mod_lt _ ht0).le
+  have hneg : ∀ neg0, neg0 = (p.getD (r.baseQ.size - 1) #[]).map (fun x => (r.t.value - x % r.t.value) % r.t.value) →
+      (if r.invQLastModT ≠ 1 then mapM' neg0 (fun x => mulMod x r.invQLastModT r.t) else pure neg0)
+      = .ok ((p.getD (r.baseQ.size - 1) #[]).map
+          (fun x => (((r.t.value - x % r.t.value) % r.t.value) * r.invQLastModT) % r.t.value)) := by
+    intro neg0 h
+    subst h
+    by_cases h1 : r.invQLastModT ≠ 1
+    · rw [if_pos h1, mapM'_ok (g := fun x => (x * r.invQLastModT) % r.t.value)]
+      · rw [Array.map_map]; rfl
+      · intro x hx
+        obtain ⟨y, -, rfl⟩ := Array.mem_map.mp hx
+        have := Nat.mod_lt (r.t.value - y % r.t.value) ht0
+        exact mulMod_exact ht (by omega) hinvt
+    · rw [if_neg h1]
+      have h1' : r.invQLastModT = 1 := by omega
+      show Except.ok _ = Except.ok _
+      congr 1
+      apply Array.map_congr_left
+      intro x _
+      rw [h1', Nat.mul_one, Nat.mod_mod]
+  unfold RNSTool.modTAndDivideQLast
+  dsimp only
+  rw [h0, ok_bind, ite_bind_join, hneg _ rfl, ok_bind, listMapM_ok (G := fun i =>
+    ((List.range r.n).map (fun j => (p.getD i #[]).getD j 0 + ((r.baseQ.q i).value * 2
+        - (p.getD (r.baseQ.size - 1) #[]).getD j 0 % (r.baseQ.q i).value
+        - (((p.getD (r.baseQ.size - 1) #[]).map
+              (fun x => (((r.t.value - x % r.t.value) % r.t.value) * r.invQLastModT) % r.t.value)).map
+            (fun x => (x % (r.baseQ.q i).value * (r.baseQ.q (r.baseQ.size - 1)).value) % (r.baseQ.q i).value)).getD j 0))
+      ).toArray.map (fun x => (x * (r.invQLastModQ.getD i default).operand) % (r.baseQ.q i).value)), ok_bind]
+  · refine ⟨_, rfl, ?_⟩
+    intro i j hi hj
+    have hb0 : 0 < (r.baseQ.q i).value := by have := (hq i (by omega)).two_le; omega
+    rw [getD_push_rangeMap _ _ _ _ hi,
+      getD_map_lt _ _ (by rw [List.size_toArray, List.length_map, List.length_range]; exact hj),
+      getD_rangeMap _ _ hj, getD_map_lt _ _ (by rw [Array.size_map, hn]; exact hj),
+      getD_map_lt _ _ (by rw [hn]; exact hj)]
+    unfold modTDivLastCoeff
+    dsimp only
+    refine modTDiv_value (Nat.mod_lt _ hb0) (Nat.mod_lt _ hb0) ?_
+    rw [Nat.mul_mod, Nat.mod_mod]
+  · intro i hi
+    rw [List.mem_range] at hi
+    have hb := hq i (by omega)
+    have hb2 := hb.two_le
+    have hb61 := hb.lt
+    have hb0 : 0 < (r.baseQ.q i).value := by omega
+    rw [mapM'_ok (g := fun x => (x % (r.baseQ.q i).value * (r.baseQ.q (r.baseQ.size - 1)).value) % (r.baseQ.q i).value),
+      ok_bind, foldlM_push_ok' (G := fun j => (p.getD i #[]).getD j 0 + ((r.baseQ.q i).value * 2
+        - (p.getD (r.baseQ.size - 1) #[]).getD j 0 % (r.baseQ.q i).value
+        - (((p.getD (r.baseQ.size - 1) #[]).map
+              (fun x => (((r.t.value - x % r.t.value) % r.t.value) * r.invQLastModT) % r.t.value)).map
+            (fun x => (x % (r.baseQ.q i).value * (r.baseQ.q (r.baseQ.size - 1)).value) % (r.baseQ.q i).value)).getD j 0)),
+      ok_bind, mapM'_ok (g := fun x => (x * (r.invQLastModQ.getD i default).operand) % (r.baseQ.q i).value)]
+    · simp
+    · intro x hx
+      have hx' : x < 2^64 := by
+        simp only [Array.empty_append, List.mem_toArray, List.mem_map, List.mem_range] at hx
+        obtain ⟨k, hk, rfl⟩ := hx
+        have := hc i k hi hk
+        omega
+      exact mulOperandMod_exact hb hx' (hinv i hi).1 (wfop_new hb (hinv i hi))
+    · intro acc j hj
+      rw [List.mem_range] at hj
+      refine modTDiv_step_ok hb (hcl j hj) ?_ (hc i j hi hj)
+      apply getD_lt_of_forall _ hb0
+      intro x hx
+      obtain ⟨y, -, rfl⟩ := Array.mem_map.mp hx
+      exact Nat.mod_lt _ hb0
+    · intro x hx
+      obtain ⟨y, -, rfl⟩ := Array.mem_map.mp hx
+      have := Nat.mod_lt ((r.t.value - y % r.t.value) % r.t.value * r.invQLastModT) ht0
+      rw [barrett64_exact hb (by omega), ok_bind]
+      exact mulMod_exact hb (by have := Nat.mod_lt ((r.t.value - y % r.t.value) % r.t.value * r.invQLastModT % r.t.value) hb0; omega) (by omega)
 
 end HC
